@@ -3,6 +3,8 @@ module verifharness
 go 1.16
 
 require (
+	github.com/bmatcuk/doublestar v1.1.5
+	github.com/fsnotify/fsnotify v1.4.9
 	github.com/logrusorgru/aurora v0.0.0-20191017060258-dc85c304c434
 	github.com/pelletier/go-toml v1.8.0
 	github.com/sirupsen/logrus v1.4.2
